@@ -28,7 +28,26 @@ const (
 	OpFail   byte = 5 // end with an error
 	OpGet    byte = 6 // read a key (the value is discarded): leaves a clean entry in the staged store's cache
 	OpHas    byte = 7
+	// OpInvalidAfter does nothing in the command; the module's AfterCommandExecute hook refuses a transaction whose program
+	// contains it, so the transaction verifies but its execution is INVALID (not merely failed): a generator must leave it
+	// out and skip its sender, and none of its effects (nonce increment, command writes, events) may stay behind.
+	OpInvalidAfter byte = 8
 )
+
+// ExecutesInvalid tells whether a transaction with these parameters passes verification and is then refused by the
+// AfterCommandExecute hook.
+func ExecutesInvalid(params []byte) bool {
+	prog, err := DecodeProgram(params)
+	if err != nil {
+		return false
+	}
+	for _, in := range prog {
+		if in.Op == OpInvalidAfter {
+			return true
+		}
+	}
+	return false
+}
 
 type Instr struct {
 	Op    byte
@@ -231,7 +250,12 @@ func (m *Module) BeforeCommandExecute(ctx *statemachine.TransactionExecuteContex
 	return nil
 }
 
-func (m *Module) AfterCommandExecute(ctx *statemachine.TransactionExecuteContext) error { return nil }
+func (m *Module) AfterCommandExecute(ctx *statemachine.TransactionExecuteContext) error {
+	if ExecutesInvalid(ctx.Transaction().Params()) {
+		return errors.New("transaction refused after its command, as programmed")
+	}
+	return nil
+}
 
 func (m *Module) GetCommand(name string) (statemachine.Command, bool) {
 	if name == CommandName {
